@@ -59,8 +59,8 @@ Lemma loop_pad fuel : forall C0 C1 expon, in_u64 C0 -> in_u64 C1 -> v128 C0 C1 <
   exists j, 0 <= j /\ (12287 < expon -> j <= expon - 12287) /\ (expon <= 12287 -> j = 0) /\
     let C' := v128 C0 C1 * 10 ^ j in
     C' < 10 ^ 34 /\ (12287 < expon - j -> 10 ^ 33 <= C') /\
-    loop_bid_get_BID128_1 fuel T33_w0 T33_w1 C1 C0 expon = (C' / 18446744073709551616, C' mod 18446744073709551616, expon - j) /\
-    okloop_bid_get_BID128_1 fuel T33_w0 T33_w1 C1 C0 expon = true.
+    loop_bid_get_BID128_1 fuel T33_w0 T33_w1 C0 C1 expon = (C' mod 18446744073709551616, C' / 18446744073709551616, expon - j) /\
+    okloop_bid_get_BID128_1 fuel T33_w0 T33_w1 C0 C1 expon = true.
 Proof.
   induction fuel as [|f IH]; intros C0 C1 expon H0 H1 HC He Hf.
   - exfalso. lia.
@@ -143,9 +143,9 @@ Proof.
       assert (PAD : exists j, 0 <= j <= expon - 12287 /\ C * 10 ^ j < 10 ^ 34 /\
                 (12287 < expon - j -> C = 0 \/ 10 ^ 34 <= C * 10 ^ (expon - 12287)) /\
                 (if wrap_i32 (expon - wrap_i32 34) <=? 12287
-                 then let '(coeff_w1, coeff_w0, expon0) :=
+                 then let '(coeff_w0, coeff_w1, expon0) :=
                         loop_bid_get_BID128_1 36 (nth (Z.to_nat (wrap_u32 (34 - 1))) T_BID_POWER10_TABLE_128_w0 0)
-                          (nth (Z.to_nat (wrap_u32 (34 - 1))) T_BID_POWER10_TABLE_128_w1 0) C1 C0 expon in (coeff_w1, coeff_w0, expon0)
+                          (nth (Z.to_nat (wrap_u32 (34 - 1))) T_BID_POWER10_TABLE_128_w1 0) C0 C1 expon in (coeff_w1, coeff_w0, expon0)
                  else (C1, C0, expon)) =
                 ((C * 10 ^ j) / 18446744073709551616, (C * 10 ^ j) mod 18446744073709551616, expon - j)).
       { change (wrap_i32 34) with 34. rewrite (wrap_i32_id (expon - 34)) by (unfold in_i32 in *; lia).
